@@ -107,8 +107,13 @@ func CBCDecrypt(key, iv, ct []byte, pad bool) ([]byte, error) {
 
 // ---- stdlib / x/crypto AEADs ----
 
+// split returns independent copies (cap == len) of the two halves.
 func split(out []byte, tagLen int) ([]byte, []byte) {
-	return out[:len(out)-tagLen], out[len(out)-tagLen:]
+	n := len(out) - tagLen
+	ct, tag := make([]byte, n), make([]byte, tagLen)
+	copy(ct, out[:n])
+	copy(tag, out[n:])
+	return ct, tag
 }
 
 func gcm(key []byte) (cipher.AEAD, error) {
